@@ -204,4 +204,35 @@ def runCase (tmplS opsS extS obsS : String) : Result := Id.run do
     | some d => return ⟨"D", d⟩
     | none => return ⟨"S", ""⟩
 
+/-- `tfamily`: templates alive together, attached to one another and extended afterwards; the products of all of them
+    after every builder call. The oracle needs the implementation's snapshots only: a call on template `i`
+    (`with i …`, `withrow i … j`) changes the product of no template but `i`; `new` adds a template and `create`
+    (a row made from a template and written into) changes nothing at all. -/
+def runFamily (opsS obsS : String) : Result := Id.run do
+  let ops := opsS.splitOn " ; "
+  let obs := obsS.splitOn " ## "
+  if ops.length != obs.length then return ⟨"B", "tfamily: ops/obs count mismatch"⟩
+  let mut prev : List String := []
+  let mut step := 0
+  for (op, ob) in ops.zip obs do
+    let cur := ob.splitOn " ;; "
+    if cur.any (· == "PANIC") then
+      return ⟨"P", s!"tfamily step {step} op [{op}]: panic while a template made a row violates C15: key=panic"⟩
+    let touched : Option Nat :=
+      match toks op with
+      | "with" :: i :: _ => i.toNat?
+      | "withrow" :: i :: _ => i.toNat?
+      | _ => none
+    let isNew := op == "new"
+    -- every template that existed before the call and is not the one called keeps its product
+    let changed := (List.range prev.length).filter fun j =>
+      some j != touched && prev[j]? != cur[j]?
+    if !changed.isEmpty then
+      return ⟨"P", s!"tfamily step {step} op [{op}]: the product of template {changed} changed (before [{prev}] after [{cur}]) violates C15: key=template-changed-without-a-builder-call-on-it"⟩
+    if !isNew && cur.length != prev.length then
+      return ⟨"B", "tfamily: template count changed"⟩
+    prev := cur
+    step := step + 1
+  return ⟨"S", ""⟩
+
 end Jl.Driver.AliasCase
